@@ -189,6 +189,13 @@ def run(tier):
         p["model_steps"] = [p["steps"][0]]
     checked, discarded = check_with_intern(ck, plist, seen)
     ck.coverage["route_programs_checked"] = checked
+    # size ladders: string literals and identifiers of every length of a ladder straddling powers of two, each compared with
+    # the same text built piecewise at run time (vfpy/gen/feat_scale.py); decided by the reference model
+    from ..gen import feat_scale as _scale
+    from . import modelcheck as _mc
+    _sp = _scale.programs("C11", ck.rng.fork("scale"), quick)
+    ck.coverage["scale_programs"] = len(_sp)
+    _mc.check_programs(ck, _sp)
     return ck.finish("(a) isolated intern-table histories under %d hash modes against a dictionary, audited after every "
                      "operation; (b) programs building one byte string (0-260 bytes, every length class) by up to 22 routes incl. cuts at random byte offsets among up to 20000 unrelated "
                      "strings, compared by ==, map lookup, host pointer identity and live-table audit; non-trivial = "
